@@ -126,7 +126,7 @@ static void check_rule(unsigned n, double a, double b)
 int main(int argc, char** argv)
 {
 	mc::init(argc, argv);
-	if(mc::ctx().replay) { printf("%s\n", mc::ctx().replay_case.c_str()); return 0; }
+	if(mc::ctx().replay) { printf("%s\n(no single-case replay for this part; use ./vcheck --replay <file>, which re-runs the enumeration for this key)\n", mc::ctx().replay_case.c_str()); return 0; }
 	int fd = open("/dev/null", O_WRONLY);
 	dup2(fd, 2);
 	std::vector<unsigned> orders;
